@@ -311,6 +311,16 @@ example : isMember (build exDb exPw) 1000 45 = true ∧ isMember (build exDb exP
 /-- the hypotheses of `restart_same` are satisfiable with a non-trivial prefix, and the conclusion is not `none = none` -/
 example : (mapCreate (constOracle exPw) () (restartPrefix [[.ent 7 ["a"], .fail 4], [.ent 8 ["b"]]] ++ entItems exDb)).1
     = some [(1000, [40, 45, 50]), (1001, [45, 50])] := by decide
+/-- a user database whose first two calls fail with EIO and which then answers like `exPw`: it satisfies the hypothesis
+    of `errors_underapproximate`, the build succeeds, and the map is a strict subset (1001 loses group 50, whose only listing of "b" fell on a failing call) -/
+def flaky : PwOracle Nat := ⟨fun k n => if k < 2 then (.fail 5, k + 1) else (exPw n, k + 1)⟩
+example : Cons flaky exPw := by
+  intro k n
+  by_cases h : k < 2
+  · right; exact ⟨5, by simp [flaky, h], by decide⟩
+  · left; simp [flaky, h]
+example : (mapCreate flaky 0 (entItems exDb)).1 = some [(1000, [40, 45, 50]), (1001, [45])] := by decide
+
 /-- a refresh in progress: the partial map differs from both the old and the new one, and a lookup made at that
     point is answered from the old map -/
 example :
